@@ -5,39 +5,39 @@ from pathlib import Path
 VERIF = Path(__file__).resolve().parent.parent
 CLAIMED = {
     "C08": dict(
-        text="Proof: the 162-entry relation table and the 19 alias bindings are translated from compare_spans.py into a deep-embedded Lean table on every run; theorems C08_keys/C08_meaning/C08_aliases/C08_alias_meaning/C08_mirror state the property for all pairs of integer spans and are proved by a reflection lemma (order-invariance: agreement on the 256 rank environments implies agreement on Int^4) plus a kernel-checked computation over the whole table (decide +kernel, no axioms beyond the three standard ones).",
-        note="Trusted: Lean kernel; translator (validated each run against the real lambdas on all 256 rank environments); PyExpr.eval (Python chain semantics); transcription of the manual's name table. Spans are Python ints.",
+        text="Proof: the 162-entry relation table and the 19 alias bindings are translated from compare_spans.py into a deep-embedded Lean table on every run; theorems C08_keys/C08_meaning/C08_aliases/C08_alias_meaning/C08_mirror state the property for all pairs of integer spans and are proved by a reflection lemma (order-invariance: agreement on the 256 rank environments implies agreement on Int^4) plus a kernel-checked computation over the whole table (decide +kernel, no axioms beyond the three standard ones). C08_manual_table: the seven rows of the Allen table of docs/md/pipeline_documentation.md, re-read by the translator on every run, are the specification's table.",
+        note="Trusted: Lean kernel; translator (validated each run against the real lambdas on all 256 rank environments); PyExpr.eval (Python chain semantics); the translator's reading of the manual's table (a regular expression over its Markdown rows); three of the six synonyms (`ended by`, `ends`, `in`) are named only in the source the manual links to. Spans are Python ints.",
         technique="Lean 4 proof by reflection over a translator-regenerated table (decide +kernel + order-invariance lemma); translator validated differentially",
         ref="DESIGN.md §5 C08"),
     "C16": dict(
-        text="Proof: normalize_predicate is modelled step by step (lower, strip, the three negation branches, sub_is, the salvage pipeline) on code-point lists; theorems: every outcome is one of the 162 keys or ValueError (C16_total), canonical keys/names/abbreviations resolve to themselves (kernel-checked over the generated dictionary), and every formula spelling of every key with ARBITRARY junk strings, operand case/index and operator styles — also with a leading `!` — resolves to that key with the right negation flag (C16_formula, C16_formula_bang: structural proofs, unbounded in the junk). The model is tied to the Python by a differential run on all specification spellings (rendered by the Lean spec) and on random/mutated strings.",
+        text="Proof: normalize_predicate is modelled step by step (lower, strip, the three negation branches, sub_is, the salvage pipeline) on code-point lists; theorems: every outcome is one of the 162 keys or ValueError (C16_total), canonical keys/names/abbreviations resolve to themselves (kernel-checked over the generated dictionary), and every formula spelling of every key with ARBITRARY junk strings, operand case/index and operator styles — also with a leading `!` — resolves to that key with the right negation flag (C16_formula, C16_formula_bang: structural proofs, unbounded in the junk); C16_abbrev_all: every single-letter abbreviation of every key (58 spellings) resolves to its key; names × 18 decorations × case masks (C16_name_spec_decorated). The model is tied to the Python by a differential run on all specification spellings (rendered by the Lean spec) and on random/mutated strings.",
         note="Trusted: Lean kernel; hand-written model validated by correspondence on the model alphabet (ASCII + ≤ …); the name dictionary comes from the translator (C08). `is`/`not ` decorations and case masks of names are exercised against the specification's renderings, not proved for all junk. Unicode outside the model alphabet is exercised implementation-only.",
         technique="Lean 4 structural proofs over a hand-written executable model + kernel-checked finite tables; differential correspondence with normalize_predicate.py",
         ref="DESIGN.md §5 C16"),
 }
 CLAIMED.update({
     "C04": dict(
-        text="Proof: filter_programs.py and run_pipeline's command parsing are modelled in Lean (sets as lists modulo membership, Counter through its count semantics, regex answers as an oracle parameter); theorems C04_include/_include_all/_exclude/_exclude_all/_impart/_hide/_error/_parse state the documented set algebra for EVERY well-formed database, oracle, filter state and criteria list. Model tied to the Python by a differential run on random well-formed databases and pipelines (final sets, state after each command, ranking), with shrinking.",
-        note="Trusted: Lean kernel; hand model validated by correspondence; regex engine as oracle (computed with the real `regex`); database well-formedness Ctx.WF is a hypothesis (C11 establishes it); predicate strings via the C16 model and the generated C08 table. impart/hide criteria are strings.",
+        text="Proof: filter_programs.py and run_pipeline's command parsing are modelled in Lean (sets as lists modulo membership, Counter through its count semantics, regex answers as an oracle parameter); theorems C04_include/_include_all/_exclude/_exclude_all/_impart/_hide/_error/_parse state the documented set algebra for EVERY well-formed database, oracle, filter state and criteria list; C04_ancestors characterises 'with all their ancestors' without the code's split/join (t ∈ prefixes u ↔ t = u ∨ t/ is a string prefix of u). Model tied to the Python by a differential run on random well-formed databases and pipelines (final sets, state after each command, ranking), with shrinking.",
+        note="Trusted: Lean kernel; hand model validated by correspondence; regex engine as oracle (computed with the real `regex`); database well-formedness Ctx.WF is a hypothesis (C11 establishes it); predicate strings via the C16 model and the generated C08 table. impart/hide criteria are strings. Outside the model (and the property text): an invalid regular expression raises regex.error in all four operations; a criterion that is neither a string nor a triple is skipped but counted by `all`.",
         technique="Lean 4 proofs (set-algebra characterisation of an executable model, all databases/pipelines) + differential correspondence with Recommendations.run_pipeline",
         ref="DESIGN.md §5 C04"),
     "C05": dict(
-        text="Proof: programs_of_negated_triple (as repaired by fix 36d3c6b) is modelled; C05_negated/C05_include_negated prove that a negated triple is met exactly by the programs having a subject occurrence in relation with no OTHER object occurrence, for every well-formed database, oracle and relation; C05_no_object and C05_self_only are the two corner cases named by the property; C05_negation_spelling links any `!`-negated formula spelling (arbitrary junk) of any of the 162 keys to the chain the key spells (via C16 and C08).",
+        text="Proof: programs_of_negated_triple (as repaired by fix 36d3c6b) is modelled; C05_negated/C05_include_negated prove that a negated triple is met exactly by the programs having a subject occurrence in relation with no OTHER object occurrence, for every well-formed database, oracle and relation; C05_no_object and C05_self_only are the two corner cases named by the property; C05_negation_spelling links any `!`-negated formula spelling (arbitrary junk) of any of the 162 keys to the chain the key spells (via C16 and C08); C05_named_relation does the same for the 19 names under the 18 decorations and any case.",
         note="Trusted: as C04. The original code violated this property (known_findings F01, fixed); reverting the fix is caught by the bounded-exhaustive mini stream.",
         technique="Lean 4 proof of model = specification for negated triples + bounded-exhaustive and random differential correspondence",
         ref="DESIGN.md §5 C05"),
     "C06": dict(
-        text="Proof: every command acts through an effect that depends on the database and the command only (runCommand_effect); hence C06_monotone, C06_order_independent (any permutation: same success, same four sets), C06_include_all_split, C06_exclude_split, C06_hide_neutral, and the two meta/program equivalences under the hypotheses made precise in MetaHyp — all for every database, oracle and command list. The implementation is additionally observed metamorphically (permutations, splits, hide insertions, equivalences) and compared with the model.",
-        note="Trusted: as C04. Costs' order-independence follows from C07_knowledge_as_set (costs depend on the knowledge as a set).",
+        text="Proof: every command acts through an effect that depends on the database and the command only (runCommand_effect); hence C06_monotone, C06_order_independent (any permutation: same success, same four sets), C06_include_all_split, C06_exclude_split, C06_hide_neutral, and the two meta/program equivalences under the hypotheses made precise in MetaHyp (non-vacuity: metaHyp_example; C06_not_contains ties `not contains` to the relation of MetaHyp) — all for every database, oracle and command list. C06_selection_order_independent / C06_costs_order_independent: the selection LIST, every taxon and program cost and the ranking are the same for every permutation of the commands. The implementation is additionally observed metamorphically (permutations, splits, hide insertions, equivalences) and compared with the model.",
+        note="Trusted: as C04. MetaHyp is stronger than the property's wording (every program has exactly one meta/program occurrence): on a program without taxa the equivalence is false. Ignored / malformed command forms of run_pipeline are executed by the harness and reported as leads only (not a clause of C06).",
         technique="Lean 4 proofs by induction over command lists (effect/commutation argument) + metamorphic and differential runs of run_pipeline",
         ref="DESIGN.md §5 C06"),
     "C07": dict(
-        text="Proof: assess_costs.py modelled with exact rationals; C07_taxon_zero / C07_taxon (cost = range cost from the longest imparted proper prefix, uniquely characterised) / C07_zeno_sum / C07_zeno_closed (2^-k - 2^-d) / C07_linear / C07_program / C07_ranking (sorted by (cost, path), permutation of the selection); C07_history: for EVERY sequence of set_imparted_knowledge / taxon_cost / assess operations on one memoised assessor, every output equals the pure function of the knowledge current at that step (invariant on the memo; model mirrors fix 0eef720).",
-        note="Trusted: Lean kernel; hand model validated by correspondence (exact Fraction(float) = Rat inside the float envelope: depth <= 40, totals < 2^12); which taxa a record holds after add_imported_taxa is compared with the model on every pipeline but is not yet a theorem.",
+        text="Proof: assess_costs.py modelled with exact rationals; C07_taxon_zero / C07_taxon (cost = range cost from the longest imparted proper prefix, uniquely characterised) / C07_zeno_sum / C07_zeno_closed (2^-k - 2^-d) / C07_linear / C07_program / C07_ranking (sorted by (cost, path), permutation of the selection); C07_history: for EVERY sequence of set_imparted_knowledge / taxon_cost / assess operations on one memoised assessor, every output equals the pure function of the knowledge current at that step (invariant on the memo; model mirrors fix 0eef720); C07_recommender: from any memo left by earlier runs, the ranking a run_pipeline call stores is the pure assessment of the state it leaves; C07_program_taxa: the record holds the own taxa plus the non-meta taxa of the transitive imports.",
+        note="Trusted: Lean kernel; hand model validated by correspondence (exact Fraction(float) = Rat inside the float envelope: depth <= 40, totals < 2^12); the assessor alphabet is {set_imparted_knowledge, taxon_cost, assess}: an in-place mutation of the knowledge set shared with the filter without set_imparted_knowledge (which only a direct update_filter + assess outside run_pipeline performs) is not a step of the model.",
         technique="Lean 4 proofs (loop characterisation, closed form over Rat, refinement of a memoised state machine to the pure function by invariant over operation sequences) + differential correspondence incl. call histories",
         ref="DESIGN.md §5 C07"),
     "C17": dict(
-        text="Proof: get_markdown is modelled as a structured report (buckets in first-appearance order, stable-sorted sections, rows, summary log); theorems C17_membership (listed programs = selected non-hidden, each once), C17_bucket + C17_bucket_contains (heading = cost_bucket(cost) and its interval contains the cost), C17_order (sorted inside each heading), C17_rows (rows = non-hidden taxa of the record with their spans / _imported_ and the assessed taxon cost), C17_total (stated cost = sum over ALL taxa), C17_summary (after any number of run_pipeline calls every announced count is the size of the selection then; model mirrors fix 248e606), C17_stdout. C17_order_across / C17_order_across_assess prove non-decreasing cost across the whole listing (cost_bucket monotone, groups in strictly increasing bucket order). The real Markdown is parsed back into that structure and compared.",
+        text="Proof: get_markdown is modelled as a structured report (buckets in first-appearance order, stable-sorted sections, rows, summary log); theorems C17_membership (listed programs = selected non-hidden, each once), C17_bucket + C17_bucket_contains (heading = cost_bucket(cost) and its interval contains the cost), C17_order (sorted inside each heading), C17_rows (rows = non-hidden taxa of the record with their spans / _imported_ and the assessed taxon cost), C17_total (stated cost = sum over ALL taxa), C17_summary (after any number of run_pipeline calls every announced count is the size of the selection then; model mirrors fix 248e606), C17_stdout. C17_order_across / C17_order_across_assess prove non-decreasing cost across the whole listing (cost_bucket monotone, groups in strictly increasing bucket order), C17_headings_increasing the same across headings under BOTH sorting strategies. C17_end_to_end / C17_listed_once / C17_report_total: on the model function `recommend` (run_pipeline × n → assess → body) the listed programs are exactly the selected non-hidden ones of the state the concatenated commands compute, each once, with costs and rows under the final knowledge, and a report is always produced when the commands are accepted. The real Markdown is parsed back into that structure and compared.",
         note="Trusted: Lean kernel; hand model validated by correspondence; the harness's Markdown parser; math.log2 compared on a grid (float corner cases near 2^k, k >= 12, outside the envelope); rendering (slugs, gutter, wrapping) outside the model.",
         technique="Lean 4 proofs about a structured-report model (permutation/sortedness/invariant over the result log) + differential correspondence by parsing the real Markdown back",
         ref="DESIGN.md §5 C17"),
